@@ -56,6 +56,46 @@ def special_case(rng: random.Random, kind: str):
     return gen, ent, enc, cfggen.comp_info(gen, ent)
 
 
+HOSTILE_FORMALS = ['identifier', 'r', 'lockAndData', 'm_dispatcher', 'm_encapsulee']
+
+
+def hostile_case(rng: random.Random, which: str):
+    """Inputs of the known findings D11/D12: identifiers that collide with names the shell itself
+    uses.  Kept out of every other generator; drawn here once per run so that the findings stay
+    visible (KNOWN-FINDING lines) and a different failure on such input is still reported."""
+    import copy  # pylint: disable=import-outside-toplevel
+    from .. import model as MM  # pylint: disable=import-outside-toplevel
+    gen, ent, enc, info = cfggen.gen_shell_case(rng, want_multiclient=True)
+    gen = copy.deepcopy(gen)
+    ent = next(e for e in gen.components if e[0] == ent[0])
+    mc = enc['multiclient']
+    if which == 'port-name-case':
+        comp = ent[1]
+        src = next(p for p in comp.ports if p.name != mc['port'] and not p.injected) \
+            if any(p.name != mc['port'] and not p.injected for p in comp.ports) else None
+        if src is None:
+            return None
+        twin = src.name[0].swapcase() + src.name[1:]
+        if twin == src.name or any(p.name == twin for p in comp.ports):
+            return None
+        comp.ports.append(MM.Port(twin, MM.Ref(list(src.type.ids), src.type.target), src.direction))
+        enc = dict(enc, provides={'sts': 'NONE', 'mts': 'ALL'}, requires={'sts': 'NONE', 'mts': 'ALL'})
+        hostile = 'port-name-case-collision'
+    else:
+        itf = gen.interface_by_fqn(info['ports'][mc['port']]['itf'])
+        ext = gen.externs[0]
+        for ev in itf.events:
+            if ev.formals:
+                ev.formals[0].name = which
+            else:
+                ref = gen._ref(info['ports'][mc['port']]['itf'].split('.'), ext[0], 'externs')
+                if ref is None:
+                    return None
+                ev.formals.append(MM.Formal(which, ref, 'in'))
+        hostile = 'formal-name:' + which
+    return gen, ent, enc, cfggen.comp_info(gen, ent), hostile
+
+
 def make_case(seed: int, stream: int):
     rng = random.Random(f'{PROP}:{seed}:{stream}')
     kinds = ['global-component', 'no-ports', 'only-injected', 'empty-interface',
@@ -77,7 +117,22 @@ def tu(includes) -> str:
 def eval_program(arg) -> dict:
     seed, stream, scratch, tier = arg
     common.import_dznpy()
-    gen, ent, enc, info, kind = make_case(seed, stream)
+    hostile = None
+    if stream < 0:
+        # canaries of the known findings: stream -1 .. -6
+        which = (HOSTILE_FORMALS + ['port-name-case'])[-stream - 1]
+        crng = random.Random(f'{PROP}:hostile:{seed}:{which}')
+        got = None
+        for _ in range(40):
+            got = hostile_case(crng, which)
+            if got:
+                break
+        if not got:
+            return {'violations': [], 'counts': {}, 'digest': f'hostile-{which}', 'nontrivial': False}
+        gen, ent, enc, info, hostile = got
+        kind = 'hostile'
+    else:
+        gen, ent, enc, info, kind = make_case(seed, stream)
     rng = random.Random(f'{PROP}:tu:{seed}:{stream}')
     work = os.path.join(scratch, f'c06_{stream}')
     out = {'violations': [], 'counts': {f'kind_{kind}': 1}}
@@ -89,7 +144,7 @@ def eval_program(arg) -> dict:
     def viol(shape, stderr, **detail):
         err = cxxlab.first_error(stderr)
         detail.update(shape=shape, error=err, kind=kind, multiclient=bool(enc.get('multiclient')),
-                      global_scope=not info['scope'])
+                      global_scope=not info['scope'], hostile=hostile or 'no')
         out['violations'].append({
             'mechanism': f'compile-error:{shape}:{cxxlab.normalise_error(err)}',
             'detail': detail, 'case': case,
@@ -99,6 +154,13 @@ def eval_program(arg) -> dict:
     if not prog.generate():
         out['violations'].append({'mechanism': f'valid-build-failed:{prog.build_exc["type"]}',
                                   'detail': prog.build_exc, 'case': case})
+        return finish(out, case, work)
+    if hostile:
+        cnt['hostile_identifier_cases'] = 1
+        if not prog.compile('plain'):
+            viol('link', prog.compile_err)
+        else:
+            cnt['hostile_identifier_cases_that_compile'] = 1
         return finish(out, case, work)
     base = shellbuild.basename(enc)
     headers = [n for n in prog.files if n.endswith('.hh')]
@@ -212,7 +274,9 @@ def main(tier: str) -> int:
     scratch = run.scratch()
     run.require('tu_alone', 'tu_twice', 'tu_orders', 'programs_linked', 'programs_run',
                 'tu_two_shells', 'programs_coexist', 'kind_global-component', 'kind_random-mc')
-    for item, res in run.pmap(eval_program, [(run.seed, i, scratch, tier) for i in range(n)],
+    jobs = [(run.seed, i, scratch, tier) for i in range(n)] + \
+        [(run.seed, -k, scratch, tier) for k in range(1, len(HOSTILE_FORMALS) + 2)]
+    for item, res in run.pmap(eval_program, jobs,
                               timeout=3600):
         if res.get('inconclusive'):
             run.mark_inconclusive(res['inconclusive'])
